@@ -5457,6 +5457,8 @@ class PyCdlib:
             # Record and the Boot Catalog become part of the ISO.
             self._check_new_paths(bootcatfile, joliet_bootcatfile, udf_bootcatfile)
             self._check_rr_name(rrname)
+            (bootcat_name, bootcat_parent_unused) = self._iso_name_and_parent_from_path(utils.normpath(bootcatfile))
+            _check_iso9660_filename(bootcat_name, self.interchange_level)
 
             br = headervd.BootRecord()
             br.new(b'EL TORITO SPECIFICATION')
